@@ -213,6 +213,19 @@ class DLPOLY_PairTabulationFactory(PairTabulationFactory):
     cutoffs = super(DLPOLY_PairTabulationFactory, self).extract_cutoffs(cp)
     if cutoffs.nr % 4 != 0:
       raise ConfigurationException("The number of rows in a DL_POLY TABLE file needs to be divisible by 4. Number of rows specified = {} ".format(cutoffs.nr))
+    if cutoffs.nr < 8:
+      # The grid spacing of a TABLE file is cutoff/(nr-4)
+      raise ConfigurationException("The number of rows in a DL_POLY TABLE file needs to be at least 8. Number of rows specified = {} ".format(cutoffs.nr))
+    return cutoffs
+
+class LAMMPS_PairTabulationFactory(PairTabulationFactory):
+  """PairTabulationFactory that checks the number of rows required by LAMMPS pair_style table and raises ConfigException if errors are found"""
+
+  def extract_cutoffs(self, cp):
+    cutoffs = super(LAMMPS_PairTabulationFactory, self).extract_cutoffs(cp)
+    if cutoffs.nr < 3:
+      # The r = 0 row is not written, the remaining nr-1 rows have to define a step size
+      raise ConfigurationException("The number of rows for a LAMMPS table needs to be at least 3. Number of rows specified = {} ".format(cutoffs.nr))
     return cutoffs
 
 class ADP_EAMTabulationFactory(EAMTabulationFactory):
@@ -242,7 +255,7 @@ class ADP_EAMTabulationFactory(EAMTabulationFactory):
 
 """Target name to factory objects"""
 TABULATION_FACTORIES = {
-  "LAMMPS"       :  PairTabulationFactory("LAMMPS", LAMMPS_PairTabulation),
+  "LAMMPS"       :  LAMMPS_PairTabulationFactory("LAMMPS", LAMMPS_PairTabulation),
   "DLPOLY"       :  DLPOLY_PairTabulationFactory("DLPOLY", DLPoly_PairTabulation),
   "GULP"         :  PairTabulationFactory("GULP", GULP_PairTabulation),
   "excel"        :  PairTabulationFactory("excel", Excel_PairTabulation),
